@@ -6,11 +6,11 @@ for f in sorted(glob.glob(os.path.join(root, "C*.lean"))):
     src = open(f).read()
     prop = os.path.basename(f)[:-5]
     items = []
-    for m in re.finditer(r"(/--(.*?)-/\s*)?theorem\s+(\S+)", src, flags=re.S):
-        doc = (m.group(2) or "").strip().replace("\n", " ")
+    for m in re.finditer(r"(?:/--((?:(?!-/).)*?)-/\s*)?^theorem\s+(\S+)", src, flags=re.S | re.M):
+        doc = (m.group(1) or "").strip().replace("\n", " ")
         doc = re.sub(r"\s+", " ", doc)
         first = re.split(r"(?<=[a-z\)\]])[:.;] ", doc)[0][:230]
-        items.append((m.group(3), first))
+        items.append((m.group(2), first))
     print(f"**{prop}** ({len(items)} theorems)\n")
     for name, doc in items:
         print(f"* `{name}` — {doc}" if doc else f"* `{name}`")
